@@ -125,7 +125,7 @@ def check_graph(ctx, res, drv, adj, rep, backend, SC, DC, pending, order=None, l
     want = graph_canon(adj, ne)
     # history: the property holds for EVERY call of solve(); the same solver object is asked again (and a third time after its result
     # was read): it must return, and return the same circuit (a different one is validated on its own)
-    if repeat or (repeat is None and ne + np_ <= 14 and (n <= 3 or ctx.rng.random() < (0.25 if ctx.quick else 0.5))):
+    if repeat or (repeat is None and ne + np_ <= 14 and (n <= 3 or ctx.rng.random() < (0.12 if ctx.quick else 0.3))):
         res.count("branches", "history:repeated-solve")
         for k in (2, 3):
             try:
@@ -296,9 +296,9 @@ def run(ctx, budget=1.0):
         if len(pending) > 40:
             flush(res, drv, pending)
     res.extra["light_targets"] = n_light
-    guided_targets(ctx, res, drv, SC, DC, pending, int((1400 if ctx.quick else 12000) * budget))
+    guided_targets(ctx, res, drv, SC, DC, pending, int((900 if ctx.quick else 12000) * budget))
     helper_correspondence(ctx, res, drv, int((80 if ctx.quick else 1500) * budget))
-    solver_helper_correspondence(ctx, res, drv, SC, int((1000 if ctx.quick else 20000) * budget))
+    solver_helper_correspondence(ctx, res, drv, SC, int((600 if ctx.quick else 10000) * budget))
     if not ctx.quick:
         for _ in range(20):
             n = rng.randrange(14, 31)
@@ -397,7 +397,7 @@ def guided_targets(ctx, res, drv, SC, DC, pending, n_cand):
         for tg in sorted(tags):
             if not tg.endswith(":-"):
                 continue
-            cap = (6 if ctx.quick else 80) if tg == "trm:Z1:-" else (2 if ctx.quick else 6)
+            cap = (4 if ctx.quick else 80) if tg == "trm:Z1:-" else (1 if ctx.quick else 6)
             if per_tag.get(tg, 0) < cap:
                 per_tag[tg] = per_tag.get(tg, 0) + 1
                 want = True
